@@ -61,7 +61,45 @@ type Case struct {
 	// DisposingState: the schema has the Disposing/Disposed states of the DisposedStates mixin but nothing
 	// handles them (the handler loop then adds Disposing on a parent cancel and disposes after a grace period)
 	DisposingState bool `json:"disposing_state,omitempty"`
+	// ReadingTracer > 0: a second tracer is bound whose transition, handler and queue callbacks read the machine
+	// (QueueTick, Time, Is, ActiveStates, QueueLen: what the RPC and debugger tracers do), after (n-1)*200 us
+	ReadingTracer int `json:"reading_tracer,omitempty"`
+	// DispTimeoutMs > 0: Machine.DisposeTimeout (how long a graceful Dispose waits for the running queue)
+	DispTimeoutMs int `json:"dispose_timeout_ms,omitempty"`
+	// DispReads: the dispose handlers read the machine's state (Is, Any, Time, ActiveStates, ...)
+	DispReads bool `json:"dispose_reads,omitempty"`
 }
+
+// readTracer reads the traced machine from inside its callbacks, like rpc's source tracer and the debugger's
+// tracer do (queue tick, time, active states of the machine whose transition just ended).
+type readTracer struct {
+	*am.TracerNoOp
+	m     *am.Machine
+	delay time.Duration
+	calls atomic.Int64
+}
+
+func (t *readTracer) read() {
+	if t.delay > 0 {
+		time.Sleep(t.delay)
+	}
+	m := t.m
+	_ = m.QueueTick()
+	_ = m.Time(nil)
+	_ = m.Is1("Y")
+	_ = m.ActiveStates(nil)
+	_ = m.QueueLen()
+	_ = m.Tick("Y")
+	_ = m.MachineTick()
+	t.calls.Add(1)
+}
+func (t *readTracer) TransitionStart(*am.Transition)              { t.read() }
+func (t *readTracer) TransitionFinals(*am.Transition)             { t.read() }
+func (t *readTracer) TransitionEnd(*am.Transition)                { t.read() }
+func (t *readTracer) MutationQueued(am.Api, *am.Mutation)         { t.read() }
+func (t *readTracer) HandlerStart(*am.Transition, string, string) { t.read() }
+func (t *readTracer) HandlerEnd(*am.Transition, string, string)   { t.read() }
+func (t *readTracer) QueueEnd(am.Api)                             { t.read() }
 
 func (c Case) key() string { b, _ := json.Marshal(c); return string(b) }
 
@@ -170,6 +208,16 @@ func runCase(c Case, st *ev.Stats) error {
 		run.Cancel()
 	}()
 	m.EvalTimeout = 20 * time.Second
+	if c.DispTimeoutMs > 0 {
+		m.DisposeTimeout = time.Duration(c.DispTimeoutMs) * time.Millisecond
+	}
+	var rtr *readTracer
+	if c.ReadingTracer > 0 {
+		rtr = &readTracer{TracerNoOp: &am.TracerNoOp{Id: "reader"}, m: m, delay: time.Duration(c.ReadingTracer-1) * 200 * time.Microsecond}
+		if _, err := m.TracerBind(rtr); err != nil {
+			return err
+		}
+	}
 
 	for _, s := range c.Pre {
 		rec.Apply(m, s)
@@ -194,7 +242,22 @@ func runCase(c Case, st *ev.Stats) error {
 	var dispCalls [3]atomic.Int32
 	for i := 0; i < c.OnDisp; i++ {
 		i := i
-		var h am.HandlerDispose = func(id string, ctx context.Context) { dispCalls[i].Add(1) }
+		var h am.HandlerDispose = func(id string, ctx context.Context) {
+			if c.DispReads {
+				_ = m.Is1("Y")
+				_ = m.Any1("Y", "Z")
+				_ = m.Not1("Z")
+				_ = m.IsErr()
+				_ = m.Time(nil)
+				_ = m.Tick("Y")
+				_ = m.ActiveStates(nil)
+				_ = m.QueueLen()
+				_ = m.IsDisposed()
+				_ = m.Err()
+				_ = m.StateNames()
+			}
+			dispCalls[i].Add(1)
+		}
 		if helper && i%2 == 1 {
 			// through the RegisterDisposal state (table vetoes bypassed for this setup mutation)
 			run.Runner.Hook = func(cl *rec.Call, e *am.Event) (bool, bool) { return true, true }
@@ -661,6 +724,18 @@ func runCase(c Case, st *ev.Stats) error {
 		} else {
 			st.Class("machine:handler-less")
 		}
+		if rtr != nil {
+			st.Class("tracer:reads-machine")
+			if rtr.calls.Load() > 0 && inFlight {
+				st.Class("tracer:reads-machine+dispose-in-flight")
+			}
+		}
+		if c.DispReads && c.OnDisp > 0 {
+			st.Class("dispose-handler:reads-machine")
+		}
+		if c.DispTimeoutMs > 0 {
+			st.Class("dispose-timeout:short")
+		}
 		if inFlight || len(kinds) >= 3 {
 			st.NonTrivial(c.key())
 			st.Sample(c.Trigger, 1, c)
@@ -709,6 +784,13 @@ func genCase(t *rapid.T) Case {
 		c.Gate = rapid.SampledFrom([]string{"dispose.entry", "dispose.afterQueueWait", "dispose.afterDisposedCas", "dispose.beforeSubs", "dispose.beforeWhenDisposed"}).Draw(t, "stage")
 	}
 	c.DisposingState = c.Trigger != "helper" && rapid.IntRange(0, 2).Draw(t, "disposingState") == 0
+	if rapid.IntRange(0, 2).Draw(t, "readingTracer") == 0 {
+		c.ReadingTracer = rapid.IntRange(1, 6).Draw(t, "readDelay")
+	}
+	if rapid.IntRange(0, 2).Draw(t, "shortDisposeTimeout") == 0 {
+		c.DispTimeoutMs = rapid.IntRange(1, 30).Draw(t, "disposeTimeoutMs")
+	}
+	c.DispReads = rapid.Bool().Draw(t, "disposeReads")
 	c.OnDisp = rapid.IntRange(0, 3).Draw(t, "onDispose")
 	ns := rapid.IntRange(0, 8).Draw(t, "nsubs")
 	perm := rapid.Permutation(allSubs).Draw(t, "subs")
@@ -757,6 +839,64 @@ func TestRegressions(t *testing.T) {
 		}
 		st.Eval(1)
 		st.Class("regression:dispose-in-handler-outliving-timeout")
+	}
+
+	// a tracer callback of a running transition reads the queue tick (rpc's source tracer does) while a graceful
+	// Dispose, which stopped waiting for the queue after DisposeTimeout, takes the machine's locks (found by a
+	// soak run of C15: a worker stopped while its RPC server traced a transition)
+	for _, cb := range []string{"TransitionEnd", "HandlerEnd"} {
+		m := am.New(context.Background(), am.Schema{"A": {}, "Y": {}}, &am.Opts{Id: fmt.Sprintf("c13reg%d", time.Now().UnixNano())})
+		m.DisposeTimeout = 20 * time.Millisecond
+		_, _ = m.HandlersBindMaps(nil, map[string]am.HandlerFinal{"AState": func(e *am.Event) {}})
+		in := make(chan struct{})
+		var once sync.Once
+		tr := &gateTracer{TracerNoOp: &am.TracerNoOp{Id: "gate"}, cb: cb, fn: func() {
+			once.Do(func() {
+				close(in)
+				time.Sleep(400 * time.Millisecond)
+				_ = m.QueueTick()
+				_ = m.Time(nil)
+				_ = m.Is1("A")
+			})
+		}}
+		_, _ = m.TracerBind(tr)
+		done := make(chan struct{})
+		go func() { defer close(done); m.Add1("A", nil) }()
+		select {
+		case <-in:
+		case <-time.After(10 * time.Second):
+			t.Fatalf("setup: tracer callback %s never ran", cb)
+		}
+		m.Dispose()
+		select {
+		case <-m.WhenDisposed():
+		case <-time.After(10 * time.Second):
+			t.Fatalf("C13 violated: WhenDisposed still open 10 s after Dispose landed while a tracer's %s callback reads the machine\n%s", cb, machStacks())
+		}
+		select {
+		case <-done:
+		case <-time.After(10 * time.Second):
+			t.Fatalf("C13 violated: Add1 did not return after a Dispose during a tracer's %s callback", cb)
+		}
+		st.Eval(1)
+		st.Class("regression:dispose-during-reading-tracer-callback")
+	}
+}
+
+type gateTracer struct {
+	*am.TracerNoOp
+	cb string
+	fn func()
+}
+
+func (t *gateTracer) TransitionEnd(*am.Transition) {
+	if t.cb == "TransitionEnd" {
+		t.fn()
+	}
+}
+func (t *gateTracer) HandlerEnd(*am.Transition, string, string) {
+	if t.cb == "HandlerEnd" {
+		t.fn()
 	}
 }
 
